@@ -59,11 +59,13 @@ def chk_textio(rec, be):
                 lines.insert(pos, com + " a comment 1.5 2.5")
             elif e["e"] == "blank":
                 lines.insert(pos, "")
+            elif e["e"] == "short":
+                lines.insert(pos, "5")
             else:
                 lines[pos] = sep.join(reversed(lines[pos].split(sep)))
         with open(fn, "w") as f:
             f.write("".join(l + "\n" for l in lines))
-        for edges, e0, e1 in (((lo, hi), lo, hi), (hi + 2.0, 0.0, hi + 2.0)):
+        for edges, e0, e1 in (((lo, hi), lo, hi), (hi + 2.0, 0.0, hi + 2.0), (np.float64(hi + 3.0), 0.0, hi + 3.0)):
             st, r = call(lambda: pyspike.load_spike_trains_from_txt(
                 fn, edges, separator=sep, comment=com, is_sorted=rec["par"]["sorted"],
                 ignore_empty_lines=rec["par"]["ignore"]))
@@ -86,7 +88,11 @@ def chk_textio(rec, be):
             for srt in (False, True):
                 st, r = call(lambda: pyspike.spike_train_from_string(l, (lo, hi), sep=sep, is_sorted=srt))
                 n += 1
-                toks = [float(t) for t in l.split(sep)]
+                try:
+                    toks = [float(t) for t in l.split(sep)]
+                except ValueError:
+                    out.append(_mm("save", "%s: saved line %r is not a %r-separated list of numbers" % (hdr, l, sep)))
+                    break
                 exp = toks if srt else sorted(toks)
                 if st != "ok":
                     out.append(_mm("from_string", "spike_train_from_string(%r, sep=%r) raised %s" % (l, sep, r)))
@@ -127,10 +133,12 @@ def chk_series(rec, be):
                     out.append(_mm(sub, "%s %s: edges %s expected [%g, %g]" % (sub, hdr, [(s.t_start, s.t_end) for s in r], start, start + C * binw)))
                     return n, out
     # scalar edge = [0, edge]
-    for e in (5.0, 0.25):
-        s = pyspike.SpikeTrain([0.1], e)
+    for e in (5.0, 0.25, 7, np.float64(2.5), np.int64(3), np.array(4.0)):
+        st, s = call(lambda: pyspike.SpikeTrain([0.1], e))
         n += 1
-        if s.t_start != 0.0 or s.t_end != e:
+        if st != "ok":
+            out.append(_mm("SpikeTrain", "SpikeTrain([0.1], %r) (a scalar edge) raised %s" % (e, s)))
+        elif s.t_start != 0.0 or s.t_end != float(e):
             out.append(_mm("SpikeTrain", "SpikeTrain([0.1], %r) has edges [%r, %r]" % (e, s.t_start, s.t_end)))
     return n, out
 
